@@ -352,3 +352,73 @@ def outdump(bindir, workspaces, timeout=900, chunk=40):
     for ch in vlib.chunked(workspaces, chunk):
         out += synlib.run_json_robust(os.path.join(bindir, "outdump"), [], ch, timeout)
     return out
+
+
+def sym_compare(exe, sk_index, items, want_outline=True, want_hover=True, want_hints=True):
+    """items: list of (workspace-with-files, outdump object).  Replays the real op log in the extracted model and compares
+    document_symbol / hover+definition at every character offset / inlay hints of every requested range with the
+    real handlers' answers recorded in the same dump.  Returns (disagreements, stats)."""
+    lines, metas = [], []
+    stats = {"sym_workspaces": 0, "sym_ops": 0, "sym_outline_files": 0, "sym_hover_offsets": 0, "sym_hint_requests": 0,
+             "sym_skipped": 0}
+    for ws, d in items:
+        if not isinstance(d, dict) or "oplog" not in d or d["oplog"] is None:
+            stats["sym_skipped"] += 1
+            continue
+        ft = dict((a, b) for a, b in ws["files"])
+        qs = []
+        for path, fid in d["fids"].items():
+            if want_outline:
+                qs.append(["outline", fid])
+            if want_hover and d["at"].get(path):
+                qs.append(["hover", fid] + char_offsets(ft[path]))
+            if want_hints:
+                for lo, hi, _h in d["hints"].get(path, []):
+                    qs.append(["hints", fid, lo, hi])
+        lines.append(sym_case_line(d, ft, sk_index, qs))
+        metas.append((ws, d, ft))
+        stats["sym_workspaces"] += 1
+        stats["sym_ops"] += len(d["oplog"])
+    outs = model_lines(exe, "sym", lines)
+    bad = []
+    for (ws, d, ft), o in zip(metas, outs):
+        base = {"files": ws["files"], "root": ws["root"]}
+        try:
+            r = json.loads(o)
+        except Exception:
+            bad.append(dict(base, kind="sym-model-crash", model=o[:300], observed=None))
+            continue
+        if "err" in r:
+            bad.append(dict(base, kind="sym-replay", model=r["err"], observed="real indexer ran to completion"))
+            continue
+        res = r["results"]
+        i = 0
+        f2p = {fid: p for p, fid in d["fids"].items()}
+        for path, fid in d["fids"].items():
+            if want_outline:
+                mo, ro = model_outline(res[i]) if not isinstance(res[i], dict) else res[i], real_outline_typ(d["symbols"][path])
+                i += 1
+                stats["sym_outline_files"] += 1
+                if mo != ro:
+                    bad.append(dict(base, kind="sym-outline", file=path, model=mo, observed=ro))
+            if want_hover and d["at"].get(path):
+                offs = char_offsets(ft[path])
+                mh = expand_runs(model_hover_runs(res[i], f2p), offs)
+                rh = expand_runs(d["at"][path], offs)
+                i += 1
+                stats["sym_hover_offsets"] += len(offs)
+                for o_ in offs:
+                    if mh[o_] != rh[o_]:
+                        bad.append(dict(base, kind="sym-hover", file=path, offset=o_, model=mh[o_], observed=rh[o_]))
+                        break
+            if want_hints:
+                for lo, hi, rhi in d["hints"].get(path, []):
+                    mhi = res[i]
+                    i += 1
+                    stats["sym_hint_requests"] += 1
+                    if isinstance(mhi, list):
+                        mhi = [[h[0], cps(h[1]), h[2]] for h in mhi]
+                    if mhi != rhi:
+                        bad.append(dict(base, kind="sym-hints", file=path, range=[lo, hi], model=mhi, observed=rhi))
+                        break
+    return bad, stats
